@@ -156,6 +156,30 @@ class Body:
             self._loops = [by_header[h] for h in sorted(by_header)]
         return self._loops
 
+    def rpo_index(self):
+        """block -> position in a reverse post-order of the non-cleanup CFG (predecessors first,
+        back edges aside)."""
+        if getattr(self, '_rpo', None) is None:
+            seen = set()
+            post = []
+            stack = [(0, iter(self._succ[0]))]
+            seen.add(0)
+            while stack:
+                b, it = stack[-1]
+                adv = False
+                for s in it:
+                    if s not in seen:
+                        seen.add(s)
+                        stack.append((s, iter(self._succ[s])))
+                        adv = True
+                        break
+                if not adv:
+                    post.append(b)
+                    stack.pop()
+            post.reverse()
+            self._rpo = {b: i for i, b in enumerate(post)}
+        return self._rpo
+
     def in_loop(self, b):
         return [l for l in self.loops() if b in l['blocks']]
 
